@@ -22,8 +22,17 @@ TINY = {"depth_quick": 3, "depth_thorough": 3, "graphs_quick": 6,
 TINY_THOROUGH = dict(TINY, enum=dict(TINY["enum"], subs=True, cancel=True))
 
 
+def _e2e(ck):
+    # the restart limit given on the command line (0 = unlimited) must be the budget the engine applies:
+    # studies through the literal `maestro run -fg -r R` with R+2 consecutive TIMEDOUT reports (harness/e2e.py)
+    import random
+    from harness import e2e
+    e2e.check_config(ck, e2e.config_cases(random.Random(ck.seed * 977 + 6), 10 if ck.tier != "thorough" else 150,
+                                          "restart"), 6)
+
+
 def run(ck):
-    return X.run_exec(ck, 6, BIAS, tiny=TINY if ck.tier == "quick" else TINY_THOROUGH)
+    return X.run_exec(ck, 6, BIAS, tiny=TINY if ck.tier == "quick" else TINY_THOROUGH, extra=_e2e)
 
 
 def replay(ck, path):
